@@ -84,6 +84,9 @@ def run(ck):
         cmps = [c for c in p.calls('strncasecmp')]
         def label_source(c):
             i = p.events.index(c)
+            comp = [a for a in c[2][:2] if not a.startswith('"') and 'reserved[' not in a and 'example[' not in a]
+            if comp and comp[0] not in ('label', 'start') and not any(e[0] == 'call' and e[1] == 'memcpy' and e[2][0] == comp[0] for e in p.events[:i]):
+                raise AnalysisBroken(f'{site}: the compared string {comp[0]} is not a label copied by memcpy in this function (a different copy idiom): R9.2 / R9.3 cannot trace which label it is; re-confirm')
             for e in reversed(p.events[:i]):
                 if e[0] == 'call' and e[1] == 'memcpy' and e[2][0] == 'label': return e[2][1], e[2][2]
             return None, None
